@@ -56,15 +56,21 @@ def run(ctx) -> None:
 
 
 def _sanitiser_stateless(ctx) -> None:
+    from ..core import module_binding
     prog = ctx.prog
     f = prog.func("naming._sanitize_user_name")
-    local = set(Defs(f).assigns)
-    allowed = {"re", "_get_reserved_names", "str", "isinstance", "None", "True", "False"}
-    bad = sorted({n.id for n in walk_no_nested(f.node) if isinstance(n, ast.Name) and n.id not in local and n.id not in allowed})
+    local = set(Defs(f).assigns) | set(f.params)
+    bad = []
+    for n in walk_no_nested(f.node):
+        if isinstance(n, ast.Name) and n.id not in local:
+            b = module_binding(prog, f.module, n.id)
+            if b is not None and b[0] == "mutable" and n.id not in bad:
+                bad.append(n.id)
     glob = [s for s in walk_stmts(f.body) if isinstance(s, (ast.Global, ast.Nonlocal))]
-    ctx.ob("g.aggregate-window", f, "sanitiser-stateless", not bad and not glob,
-           "_sanitize_user_name is a pure function of the name (no module-level state)", f.node,
-           message=f"_sanitize_user_name reads module-level state {bad}: output names of aggregate/window would depend on what was "
+    memo = [d for d in f.decorators if "cache" in d]
+    ctx.ob("g.aggregate-window", f, "sanitiser-stateless", not bad and not glob and not memo,
+           "_sanitize_user_name is a pure function of the name (no mutable module-level state, no memo)", f.node,
+           message=f"_sanitize_user_name reads module-level state {bad + memo}: output names of aggregate/window would depend on what was "
                    f"sanitised before (a memo keyed by the raw name conflates 1, 1.0 and True)")
 
 
